@@ -9,6 +9,7 @@ mod c06msg;
 mod c06sim;
 mod c07;
 mod c08;
+mod c08boot;
 mod boundary;
 mod c01;
 mod c17;
